@@ -197,7 +197,7 @@ def run(model, tier="quick"):
 
 
 MANIFEST = {
-    "technique": "formula/ledger identity of the fee accrual and the status refresh against references; idempotence rule for values derived from the replaced status",
+    "technique": "formula/ledger identity of the fee accrual and the status refresh against references; idempotence rule for values derived from the replaced status; write-gate coverage of every writer of a position's liquidity (call-graph rule)",
     "claim": "The classification, the per-token accrual formula, the path-fraction weight (middle interval of the four sorted "
              "points over the path length), the refresh (copied row, own liquidity of all positions added once, previous close "
              "tracked only on a bar change) and the loops over positions/markets are identical to references written from the "
